@@ -1705,3 +1705,116 @@ VARIANTS += [
       edits=policy_shape(more=[(V, '\tif !slices.Contains(pluginCapabilities, pluginframework.CapabilityTrustedIdentityVerifier) {\n\t\tlogger.Debug("Validating trust identity")', '\tif !slices.Contains(pluginCapabilities, pluginframework.CapabilityTrustedIdentityVerifier) && installedPlugin == nil {\n\t\tlogger.Debug("Validating trust identity")')]),
       why='struct shape with the property broken: with any plugin named the native identity check is skipped, whether or not the plugin declares the capability'),
 ]
+
+# ---- guard-mutation pass: a guard that is still written but no longer taken (`if false && (C)`, `if other && C`) -------------
+_ID_VERDICT = '\t\t\tif !pluginResult.Success {\n\t\t\t\t// find the Authenticity'
+_REV_VERDICT = '\t\t\tif !pluginResult.Success {\n\t\t\t\trevocationResult = &notation.ValidationResult{\n\t\t\t\t\tError:'
+_EXEC_GUARD = '\tif installedPlugin != nil {\n\t\tvar capabilitiesToVerify'
+_ID_ARM_OLD = '''			if !pluginResult.Success {
+				// find the Authenticity VerificationResult that we already
+				// created during x509 trust store verification
+				var authenticityResult *notation.ValidationResult
+				for _, r := range outcome.VerificationResults {
+					if r.Type == trustpolicy.TypeAuthenticity {
+						authenticityResult = r
+						break
+					}
+				}
+
+				authenticityResult.Error = fmt.Errorf("trusted identify verification by plugin %q failed with reason %q", verificationPluginName, pluginResult.Reason)
+
+				if isCriticalFailure(authenticityResult) {
+					return authenticityResult.Error
+				}
+			}
+'''
+_ID_ARM_SWITCH = '''			switch {
+			case !pluginResult.Success:
+				var authenticityResult *notation.ValidationResult
+				for _, r := range outcome.VerificationResults {
+					if r.Type == trustpolicy.TypeAuthenticity {
+						authenticityResult = r
+						break
+					}
+				}
+
+				authenticityResult.Error = fmt.Errorf("trusted identify verification by plugin %q failed with reason %q", verificationPluginName, pluginResult.Reason)
+
+				if isCriticalFailure(authenticityResult) {
+					return authenticityResult.Error
+				}
+			}
+'''
+_EXEC_OLD = '''		if len(capabilitiesToVerify) > 0 {
+			logger.Debugf("Executing verification plugin %q with capabilities %v", verificationPluginName, capabilitiesToVerify)
+			response, err := executePlugin(ctx, installedPlugin, capabilitiesToVerify, outcome.EnvelopeContent, trustedIdentities, pluginConfig)
+			if err != nil {
+				return fmt.Errorf("failed to verify with plugin %s: %w", verificationPluginName, err)
+			}
+
+			return processPluginResponse(capabilitiesToVerify, response, outcome)
+		}
+	}
+
+	if installedPlugin == nil {
+'''
+_EXEC_EARLY = '''		if len(capabilitiesToVerify) == 0 {
+			return nil
+		}
+		logger.Debugf("Executing verification plugin %q with capabilities %v", verificationPluginName, capabilitiesToVerify)
+		response, err := executePlugin(ctx, installedPlugin, capabilitiesToVerify, outcome.EnvelopeContent, trustedIdentities, pluginConfig)
+		if err != nil {
+			return fmt.Errorf("failed to verify with plugin %s: %w", verificationPluginName, err)
+		}
+
+		return processPluginResponse(capabilitiesToVerify, response, outcome)
+	}
+
+	if installedPlugin == nil {
+'''
+VARIANTS += [
+ dict(name='gm-identity-verdict-guard-never-taken', expect='flagged(plugin/verdict-trusted-identity/every-path)', file=V,
+      find=_ID_VERDICT, replace=_ID_VERDICT.replace('if !pluginResult.Success {', 'if false && (!pluginResult.Success) {'),
+      why='the test of the identity verdict is written but not reached: a failed verdict of the plugin is passed over (guard mutant verifier.go:662)'),
+ dict(name='gm-identity-verdict-guard-extra-conjunct', expect='flagged(plugin/verdict-trusted-identity/every-path)', file=V,
+      find=_ID_VERDICT, replace=_ID_VERDICT.replace('if !pluginResult.Success {', 'if len(capabilitiesToVerify) > 1 && !pluginResult.Success {'),
+      why='the failed identity verdict counts only when the plugin was asked for both capabilities'),
+ dict(name='gm-identity-verdict-guard-reason-first', expect='flagged(plugin/verdict-trusted-identity/every-path)', file=V,
+      find=_ID_VERDICT, replace=_ID_VERDICT.replace('if !pluginResult.Success {', 'if pluginResult.Reason != "" && !pluginResult.Success {'),
+      why='a failed verdict without a reason is passed over; the conjunct stands before the Success test'),
+ dict(name='gm-revocation-verdict-guard-never-taken', expect='flagged(plugin/verdict-revocation)', file=V,
+      find=_REV_VERDICT, replace=_REV_VERDICT.replace('if !pluginResult.Success {', 'if false && (!pluginResult.Success) {'),
+      why='the same slip in the revocation arm: every verdict yields the result without an error'),
+ dict(name='benign-gm-identity-verdict-compared-with-false', expect='silent', file=V,
+      find=_ID_VERDICT, replace=_ID_VERDICT.replace('if !pluginResult.Success {', 'if false == pluginResult.Success {'),
+      why='the same guard, spelled as a comparison with the constant (operands swapped)'),
+ dict(name='benign-gm-identity-verdict-flag-in-local', expect='silent', file=V,
+      find=_ID_VERDICT, replace=_ID_VERDICT.replace('if !pluginResult.Success {', 'if accepted := pluginResult.Success; !accepted {'),
+      why='the same guard, the flag copied to a local first'),
+ dict(name='benign-gm-identity-verdict-tagless-switch', expect='silent', file=V, find=_ID_ARM_OLD, replace=_ID_ARM_SWITCH,
+      why='the same guard as the only case of a tagless switch'),
+ dict(name='gm-identity-verdict-tagless-switch-extra-conjunct', expect='flagged(plugin/verdict-trusted-identity/every-path)', file=V, find=_ID_ARM_OLD,
+      replace=_ID_ARM_SWITCH.replace('case !pluginResult.Success:', 'case len(capabilitiesToVerify) > 1 && !pluginResult.Success:'),
+      why='switch shape with the guard weakened'),
+ dict(name='gm-plugin-execution-guard-never-taken', expect='flagged(routing/executed-when-requested)', file=V,
+      find=_EXEC_GUARD, replace=_EXEC_GUARD.replace('if installedPlugin != nil {', 'if false && (installedPlugin != nil) {'),
+      why='the plugin is named, its capabilities switch the native checks off, and it is never run (guard mutant verifier.go:544)'),
+ dict(name='gm-plugin-execution-guard-extra-conjunct', expect='flagged(routing/executed-when-requested)', file=V,
+      find=_EXEC_GUARD, replace=_EXEC_GUARD.replace('if installedPlugin != nil {', 'if len(trustedIdentities) > 1 && installedPlugin != nil {'),
+      why='the plugin is run only when the policy lists several identities'),
+ dict(name='gm-plugin-execution-guard-config-conjunct', expect='flagged(routing/executed-when-requested)', file=V,
+      find=_EXEC_GUARD, replace=_EXEC_GUARD.replace('if installedPlugin != nil {', 'if pluginConfig != nil && installedPlugin != nil {'),
+      why='the plugin is run only when a plugin configuration was given'),
+ dict(name='benign-gm-plugin-execution-guard-operands-swapped', expect='silent', file=V,
+      find=_EXEC_GUARD, replace=_EXEC_GUARD.replace('if installedPlugin != nil {', 'if nil != installedPlugin {'),
+      why='the same guard, operands swapped'),
+ dict(name='benign-gm-plugin-execution-else-branch', expect='silent', file=V,
+      find='\t\t\treturn processPluginResponse(capabilitiesToVerify, response, outcome)\n\t\t}\n\t}\n\n\tif installedPlugin == nil {\n',
+      replace='\t\t\treturn processPluginResponse(capabilitiesToVerify, response, outcome)\n\t\t}\n\t} else {\n',
+      why='the two complementary tests of the plugin object merged into if/else'),
+ dict(name='benign-gm-plugin-execution-early-return-on-empty-request', expect='silent', file=V, find=_EXEC_OLD, replace=_EXEC_EARLY,
+      why='the emptiness test of the request as an early return, the execution unnested'),
+ dict(name='gm-plugin-execution-early-return-on-other-list', expect='flagged(routing/executed-when-requested)', file=V, find=_EXEC_OLD,
+      replace=_EXEC_EARLY.replace('if len(capabilitiesToVerify) == 0 {', 'if len(capabilitiesToVerify) == 0 || len(trustedIdentities) == 0 {'),
+      why='early-return shape with the property broken: without trusted identities in the policy the plugin is not run although asked'),
+]
